@@ -463,6 +463,79 @@ class Arbitrage(Harness):
                       "C20.arb-component-leg", "component leg is not v on the opposite side at its market price")
 
 
+class Populations(Harness):
+    """several agents of one kind in one process: set up from one settings object / consulted one after the other."""
+    name = "Populations"
+    title = "agents of one population do not influence each other (shared settings object, shared class state)"
+    what_symbolic = "the uniform draws of the agents' generators (window sizes), index and component prices, threshold"
+    nontrivial_event = "the second agent's behaviour was checked after the first one had been set up / consulted"
+    bounds = {"quick": "two FCN agents set up from one settings dict without meanReversionTime and with a random window; "
+                       "two arbitrage agents with full and partial access to the components consulted in both orders",
+              "thorough": "same"}
+    reach = ("nontrivial",)
+    agreement_runs = 2
+
+    def cases(self, tier):
+        return [{"kind": "fcn-shared-settings"}, {"kind": "arb-mixed-access", "first": "full"},
+                {"kind": "arb-mixed-access", "first": "partial"}]
+
+    def run(self, g, case):
+        import copy
+        sim = Simulator(prng=random.Random(0))
+        if case["kind"] == "fcn-shared-settings":
+            m, st = _market(sim, 0, "M")
+            m.setup(st)
+            sim._add_market(m)
+            settings = {"cashAmount": 1000, "assetVolume": 10, "fundamentalWeight": 1.0, "chartWeight": 1.0,
+                        "noiseWeight": 1.0, "noiseScale": 0.1, "timeWindowSize": [10, 50], "orderMargin": 0.1}
+            before = copy.deepcopy(settings)
+            agents = []
+            for i in range(2):
+                a = FCNAgent(agent_id=i, prng=SymRandom(g, f"ag{i}"), simulator=sim, name=f"a{i}")
+                a.setup(settings, accessible_markets_ids=[0])
+                agents.append(a)
+            g.note("nontrivial")
+            g.require(settings == before, "C20.settings-modified", "agent setup wrote into the settings it was given")
+            for a in agents:
+                # without the key the mean reversion time is the agent's own window
+                g.require(a.mean_reversion_time == a.time_window_size, "C20.fcn-mean-reversion-default",
+                          f"agent {a.name}: mean reversion time {a.mean_reversion_time}, window {a.time_window_size}")
+            return
+        n = 2
+        comps = []
+        for i in range(n):
+            m, st = _market(sim, i, f"C{i}", price=100 * (i + 1))
+            m.setup(st)
+            sim._add_market(m)
+            comps.append(m)
+        idx, st = _market(sim, n, "IDX", cls=IndexMarket, extra={"markets": [m.name for m in comps]})
+        idx.setup(st)
+        sim._add_market(idx)
+        for m in comps + [idx]:
+            m._update_time(next_fundamental_price=100.0)
+            m._is_running = True
+        for i, m in enumerate(comps):
+            _trade(m, g.int(f"p{i}", 1, 10 ** 6))
+        _trade(idx, g.int("pi", 1, 10 ** 6))
+        thr = g.real("thr", 0, 10 ** 6)
+        access = {"full": [0, 1, 2], "partial": [1, 2]}
+        order = [case["first"], "partial" if case["first"] == "full" else "full"]
+        arb = Arbitrage()
+        for k, who in enumerate(order):
+            a = ArbitrageAgent(agent_id=10 + k, prng=SymRandom(g, f"ag{k}"), simulator=sim, name=who)
+            a.setup({"cashAmount": 1000, "assetVolume": 10, "orderVolume": 2, "orderThresholdPrice": 1.0,
+                     "orderTimeLength": 4}, accessible_markets_ids=access[who])
+            a.order_threshold_price = thr
+            if k == 1:
+                g.note("nontrivial")
+            arb.poll(g, a, comps + [idx], comps, idx, thr, 2,
+                     {"stop": None, "no_access": None if who == "full" else "component"})
+
+
+class C20_Populations(Populations):
+    pass
+
+
 class TestAgentOrders(Harness):
     name = "TestAgentOrders"
     title = "real TestAgent.submit_orders: well-formed orders under its own id for accessible markets only"
